@@ -40,9 +40,22 @@ def main(argv=None):
             'comprehensions_over_constant_tables_unrolled': getattr(repo, 'n_unrolled', 0),
             'dict_splats_spliced': getattr(repo, 'n_spliced', 0),
             'renamed_private_helpers_followed': {old: f.fq for old, f in sorted(getattr(repo, 'renamed', {}).items())}}
-        mod.run(chk, repo, args.tier)
         from . import generic
-        generic.run(chk, repo, pid)
+        from .report import AnalysisError as _AE
+        # a rule that loses its anchor stops the property's own rules (exit 2) - but the shape rules Y0 still look at the
+        # tree: a definite violation they find is reported (exit 1) rather than hidden behind "cannot decide"
+        stopped = None
+        try:
+            mod.run(chk, repo, args.tier)
+        except _AE as e:
+            stopped = e
+        try:
+            generic.run(chk, repo, pid)
+        except _AE:
+            if stopped is None:
+                raise
+        if stopped is not None:
+            raise stopped
         if args.tier == 'thorough' and not os.environ.get('VERIF_SELFTEST'):
             from selftest.harness import mutants_for, run_all
             from .report import AnalysisError
